@@ -47,6 +47,7 @@ type proposal struct {
 	Accept bool  `json:"peer_accepts"`
 	Delay  int   `json:"handler_yields"`
 	N      int   `json:"number"`
+	Final  bool  `json:"final_flag,omitempty"` // sequential mode only; later proposals on a finalized channel are skipped
 }
 
 type program struct {
@@ -121,6 +122,12 @@ func genProgram(rng *rand.Rand) program {
 			pr.Ch = 0
 		}
 		pr.N = i + 1
+		if p.Mode == "sequential" && rng.Intn(7) == 0 {
+			pr.Final = true
+			if rng.Intn(2) == 0 {
+				pr.Accept = false // a rejected final proposal must leave both ready for more
+			}
+		}
 		p.Proposals = append(p.Proposals, pr)
 	}
 	return p
@@ -275,6 +282,9 @@ func one(s sink.Sink, rng *rand.Rand, sample bool) {
 	short := 400 * time.Millisecond
 	exec := func(pr proposal) {
 		ch := chans[pr.Ch][pr.Who]
+		if ch.State().IsFinal {
+			return // the channel was finalized by an accepted final proposal
+		}
 		peerKey := fmt.Sprintf("%d|%x", 1-pr.Who, ch.ID())
 		dmu.Lock()
 		pending[peerKey] = append(pending[peerKey], decision{pr.Accept, pr.Delay})
@@ -297,6 +307,7 @@ func one(s sink.Sink, rng *rand.Rand, sample bool) {
 			st.Balances[pr.Asset][me] = new(big.Int).Sub(st.Balances[pr.Asset][me], big.NewInt(pr.Amount))
 			st.Balances[pr.Asset][1-me] = new(big.Int).Add(st.Balances[pr.Asset][1-me], big.NewInt(pr.Amount))
 			st.Data = &gen.BytesData{B: []byte{byte(pr.N >> 8), byte(pr.N)}}
+			st.IsFinal = pr.Final
 			want = st
 		})
 		var enc []byte
@@ -437,12 +448,19 @@ func one(s sink.Sink, rng *rand.Rand, sample bool) {
 			if !bytes.Equal(gen.EncodeState(sa), gen.EncodeState(sb)) {
 				problem("at quiescence the two parties hold different current states on channel %d (versions %d and %d)", c, sa.Version, sb.Version)
 			}
-			if pa, pb := chans[c][0].Phase(), chans[c][1].Phase(); pa != channel.Acting || pb != channel.Acting {
-				problem("at quiescence the phases are %v/%v, want Acting/Acting", pa, pb)
+			wantPhase := channel.Acting
+			if sa.IsFinal {
+				wantPhase = channel.Final
+			}
+			if pa, pb := chans[c][0].Phase(), chans[c][1].Phase(); pa != wantPhase || pb != wantPhase {
+				problem("at quiescence the phases are %v/%v, want %v/%v", pa, pb, wantPhase, wantPhase)
 			}
 		}
 		// both are ready for further updates: a barrier payment of 0 in each direction
 		for c := range chans {
+			if chans[c][0].State().IsFinal {
+				continue
+			}
 			for who := 0; who < 2; who++ {
 				if err := ps[who].Pay(chans[c][who], 0, 0, false); err != nil {
 					problem("after the program a further update by %s on channel %d fails: %v", ps[who].Name, c, err)
